@@ -261,10 +261,18 @@ def ci2Op {F : Type} [FloatLike F] [Widen F Float] (args : List String) : Option
             | _ => none
           match numInterval a, numInterval b with
           | some (ka, la, ha), some (kb, lb, hb) =>
-            -- magnitude scale of the bounds
+            -- rounding allowance in the space the statistics live in (logs for geometric,
+            -- reciprocals for harmonic), carried to a bound b by the derivative of the back-transform
+            let (m1, _) := condOf (F := F) pa.inner
+            let hwI := fmax (pa.halfWidth crit) (pb.halfWidth crit)
             let mags := [la, ha, lb, hb, estV].filterMap id |>.map Float.abs
             let scale := mags.foldl fmax 0.0
-            let slack := if isRank then 0.0 else 64.0 * u * (scale + (pa.halfWidth crit) + (pb.halfWidth crit)) + Float.scaleB 1.0 (-1060)
+            let inner := if pa.inner.isEmpty then scale else m1 + hwI
+            let amp (b : Float) : Float :=
+              if prod == "geo" then b.abs else if prod == "harm" then b * b else 1.0
+            let slackAt (b : Float) : Float :=
+              if isRank then 0.0 else amp b * (64.0 * u * inner) + 16.0 * u * b.abs + Float.scaleB 1.0 (-1060)
+            let slack := slackAt scale
             -- kind of the result matches the kind of the confidence
             let kindOk (c : Confidence Float) (k : String) (lo hi : Option Float) : List String :=
               if isProp then
@@ -288,22 +296,22 @@ def ci2Op {F : Type} [FloatLike F] [Widen F Float] (args : List String) : Option
               | .upper l1, .twoSided l2 | .lower l1, .twoSided l2 =>
                 -- one-sided at L vs two-sided at 2L-1: the finite bound coincides
                 if (l2 - (2.0 * l1 - 1.0)).abs ≤ 4.0 * eps53 && l1 > 0.5 then
-                  let tolQ := if isRank then 1.0 else slack * 64.0 + scale * 1e-9
+                  let tolQ (b : Float) : Float := if isRank then 1.0 else slackAt b * 64.0 + amp b * hwI * 1e-9 + b.abs * 1e-12
                   -- the two requests differ by one rounding of 1-(1-(2L-1))/2, so the quantiles differ
                   -- by the conditioning of the inverse CDF; rank bounds may differ by one position
                   (match fla, flb, fha, fhb with
-                   | some x, some y, _, _ => if (x - y).abs ≤ tolQ then [] else ["one-sided-bound≠two-sided-bound-at-2L-1"]
-                   | _, _, some x, some y => if (x - y).abs ≤ tolQ then [] else ["one-sided-bound≠two-sided-bound-at-2L-1"]
+                   | some x, some y, _, _ => if x == y || (x - y).abs ≤ tolQ (fmax x.abs y.abs) then [] else ["one-sided-bound≠two-sided-bound-at-2L-1"]
+                   | _, _, some x, some y => if x == y || (x - y).abs ≤ tolQ (fmax x.abs y.abs) then [] else ["one-sided-bound≠two-sided-bound-at-2L-1"]
                    | _, _, _, _ => ["kind-mismatch"])
                 else []
               | _, _ =>
                 if kindOfConf ca == kindOfConf cb && levelOf ca ≤ levelOf cb then
                   -- raising the level never shrinks the interval
                   (match fla, flb with
-                   | some x, some y => if y ≤ x + slack then [] else ["higher-level-shrinks-lower-bound"]
+                   | some x, some y => if y ≤ x || y ≤ x + slackAt (fmax x.abs y.abs) then [] else ["higher-level-shrinks-lower-bound"]
                    | _, _ => []) ++
                   (match fha, fhb with
-                   | some x, some y => if x ≤ y + slack then [] else ["higher-level-shrinks-upper-bound"]
+                   | some x, some y => if x ≤ y || x ≤ y + slackAt (fmax x.abs y.abs) then [] else ["higher-level-shrinks-upper-bound"]
                    | _, _ => [])
                 else []
             -- contains the point estimate (two-sided, or one-sided at level ≥ 1/2)
